@@ -291,8 +291,8 @@ impl<S: ClientStream> AgentClient<S> {
         let _t = resp.read_string()?;
         let sig = resp.read_string()?;
 
-        let mut out = [0; 64];
-        out.copy_from_slice(sig);
+        // `copy_from_slice` panics unless the lengths are equal.
+        let out: Signature = sig.try_into().map_err(|_| Error::AgentProtocolError)?;
 
         Ok(out)
     }
